@@ -34,7 +34,7 @@ THEOREMS = [
     "Escape.html2stan_encode", "Escape.sig_default_safe", "Escape.sig_default_text", "Escape.sig_default_nbsp_counterexample",
     "Escape.quote_clean", "Escape.url_href_verbatim", "Escape.node2stan_starttag_safe", "Escape.rstPrefix_prefixed",
     "Escape.mungeHref_fragment", "Escape.validIdentifierCss_clean",
-    "Escape.math_filter_safe", "Escape.isMathHtml_elements", "Escape.math_filter_rejects",
+    "Escape.math_filter_cdata_counterexample", "Escape.math_filter_safe", "Escape.isMathHtml_elements", "Escape.math_filter_rejects",
     "Escape.introspected_sig_safe", "Escape.introspected_sigOld_counterexample",
     "Escape.sanitise_chars", "Escape.literal_holds_ok", "Escape.sanitise_guard", "Escape.sanitise_guard_partial",
     "Escape.sanitise_guard_counterexample",
@@ -841,7 +841,12 @@ def run_builder_streams(ctx: Ctx) -> None:
 
     def math_tree(depth: int):
         if depth >= 3 or rng.random() < 0.3:
-            return ("T", drop_illegal(rand_string(rng, 5))) if rng.random() < 0.8 else ("R", 64)
+            k = rng.random()
+            if k < 0.08:
+                return ("D", drop_illegal(rand_string(rng, 5)))
+            if k < 0.16:
+                return ("C", drop_illegal(rand_string(rng, 5)).replace("--", "- ").rstrip("-"))
+            return ("T", drop_illegal(rand_string(rng, 5))) if k < 0.85 else ("R", 64)
         name = "" if rng.random() < 0.05 else rng.choice(MT[:17] if rng.random() < 0.85 else MT)
         attrs = []
         for k in rng.sample(MA[:4] if rng.random() < 0.85 else MA, rng.choice([0, 0, 1, 1, 2])):
@@ -850,7 +855,9 @@ def run_builder_streams(ctx: Ctx) -> None:
     reqs, impls, pay = [], [], []
     fixed_trees = [("E", "", [], [("E", "script", [], [("T", "x")])]), ("E", "", [], [("E", "b", [("onclick", "x")], [])]),
                    ("E", "", [], [("E", "a", [("href", " JavaScript:x")], [])]), ("E", "", [], [("E", "span", [("class", "text")], [("E", "i", [], [("T", "a")])])]),
-                   ("E", "", [], [("E", "span", [("style", "color: x")], [("E", "xmk1", [], [])])])]
+                   ("E", "", [], [("E", "span", [("style", "color: x")], [("E", "xmk1", [], [])])]),
+                   ("E", "", [], [("E", "span", [("class", "text")], [("D", "><img src=\"x\" onerror=\"a()\"/>")])]),
+                   ("E", "", [], [("E", "span", [("class", "mbox")], [("C", "><img src=\"y\"/>")])])]
     for i in range(2 * n):
         t = fixed_trees[i] if i < len(fixed_trees) else ("E", "", [], [math_tree(0) for _ in range(rng.choice([1, 1, 2]))])
         html = flatten(to_stan(t))
@@ -868,6 +875,30 @@ def run_builder_streams(ctx: Ctx) -> None:
             if bad:
                 ctx.fail("math-filter-keeps-foreign-markup", pay[-1], f"_is_math_html accepts {html!r}")
     ctx.compare("builder:_is_math_html", reqs, impls, pay)
+    # (1d) html2stan is given DATA (docutils / colorizer output): twisted.web.template directives in it must not be run
+    #      when the page is written. Direct oracle only (the Stan model has no renderers or slots): either html2stan
+    #      refuses the fragment, or flattening it gives back the same elements.
+    from pydoctor.stanutils import html2stan
+    NS = 'xmlns:t="http://twistedmatrix.com/ns/twisted.web.template/0.1"'
+    for frag in [f'<span {NS} t:render="nosuch">x</span>', f'<span {NS} t:render="footer">x</span>', f'<t:slot {NS} name="nosuch"/>',
+                 f'<t:slot {NS} name="project" default="d"/>', f'<t:transparent {NS}><b>x</b></t:transparent>',
+                 f'<a {NS}><t:attr name="href">javascript:x</t:attr>y</a>', '<b>plain</b> text']:
+        ctx.case("html2stan-directive " + enc(frag), True)
+        try:
+            stan = html2stan(frag)
+        except Exception as e:
+            ctx.count("builder:html2stan-directives:refused:" + exc_name(e))
+            continue
+        try:
+            out = flatten(stan)
+            want = [e.tag.split("}")[-1] for e in ET.fromstring("<r>" + frag + "</r>").iter()][1:]
+            got = [e.tag for e in ET.fromstring("<r>" + out + "</r>").iter()][1:]
+            verdict = "same" if want == got else f"elements {want} became {got}"
+        except Exception as e:
+            verdict = "flatten raises " + exc_name(e)
+        ctx.count("builder:html2stan-directives:" + ("data" if verdict == "same" else "executed"))
+        if verdict != "same":
+            ctx.fail("html2stan-runs-template-directives", {"html": frag}, f"html2stan({frag!r}): {verdict}")
     # (2) urllib.parse.quote and Documentable.url / taglink
     reqs, impls, pay = [], [], []
     for _ in range(5 * n):
@@ -1053,6 +1084,13 @@ TRIPPERS = ["\u00a0", "a\u00a0b", "\x0c", "\ufffe", "\u2028\u00a0", "&nbsp;\u00a
 # text inside math markup (epytext M{...}, reST :math: / .. math::): the argument of \\text{} / \\mbox{} and the literal
 # parameters of \\color{} are LaTeX *text*, not markup
 MATH_PAYLOADS = ["<xmk{i} onzz{i}=\"1\">n</xmk{i}>", "<script>xmk{i}</script>", "<img src=\"x\" onzz{i}=\"1\"/>"]
+# hunter round: text of a formula wrapped in a CDATA section / a comment (written verbatim by the flattener: nothing in it
+# is escaped, and for an HTML parser '<![CDATA[>' and '<!-->' end at once), and twisted.web.template directives
+MATH_CDATA_PAYLOADS = ["<![CDATA[><xmk{i} onzz{i}=\"1\"/>]]>", "<![CDATA[<script>xmk{i}</script>]]>"]
+MATH_COMMENT_PAYLOADS = ["<!--><xmk{i} onzz{i}=\"1\"/>-->", "<!---><script>xmk{i}</script>-->"]
+TNS = "xmlns:t=\"http://twistedmatrix.com/ns/twisted.web.template/0.1\""
+MATH_TEMPLATE_PAYLOADS = ["<span " + TNS + " t:render=\"footer\">x{i}</span>"]
+MATH_TEMPLATE_ABORT_PAYLOADS = ["<span " + TNS + " t:render=\"nosuch{i}\">x</span>", "<t:slot " + TNS + " name=\"nosuch{i}\"/>"]
 # combining characters that NFC composes with the ASCII character before them (> < = and letters)
 LEADS = ["\u0338", "\u0338", "\u20d2", "\u0307", "\u0301", "\u3099", "\u0338\u0338"]
 # reST-flavoured payloads: only for positions that are not docstrings (in a docstring they are the author's markup)
@@ -1166,7 +1204,11 @@ def gen_project(rng, pidx: int, docformat: str, force_deprecated: bool = False) 
             m2 = mk(summary_kind)
             parts.append(f"\nBody text {doc_safe(m2)} more text.")
         if docformat != "plaintext" and rng.random() < 0.25:
-            mm = mk("math-text", pool=MATH_PAYLOADS)
+            mkind, mpool = rng.choice([("math-text", MATH_PAYLOADS)] * 5 + [("math-cdata", MATH_CDATA_PAYLOADS), ("math-comment", MATH_COMMENT_PAYLOADS),
+                                       ("math-template", MATH_TEMPLATE_PAYLOADS)] * 2)
+            if rng.random() < 0.04:   # rare: such a directive aborts the whole run, nothing else of the project is seen
+                mkind, mpool = "math-template-abort", MATH_TEMPLATE_ABORT_PAYLOADS
+            mm = mk(mkind, pool=mpool)
             cmd = rng.choice(["text", "mbox", "textrm"])
             inner = BS2 + cmd + "{" + doc_safe(mm) + "}"
             parts.append(f"\nMath M{{{inner}}} done." if docformat == "epytext" else f"\nMath :math:`{inner}` done.")
@@ -1270,10 +1312,12 @@ def gen_project(rng, pidx: int, docformat: str, force_deprecated: bool = False) 
     if rng.random() < 0.25:
         m = mk("module-filename")
         # a file name may hold anything but '/' and NUL; keep it importable-looking
-        fname = (m.id + rng.choice(["&lt;<b>", "<xmk%d onzz%d=x>" % (m.num, m.num), "\"'&", "]]>"]))
+        fname = (m.id + rng.choice(["&lt;<b>", "<xmk%d onzz%d=x>" % (m.num, m.num), "\"'&", "]]>",
+                                    "` **MKEM%d** `b" % m.num, "` **MKEM%d** `b" % m.num, "`` *MKEM%d* ``" % m.num]))
         m.payload = fname[len(m.id):]
         m.text = fname
-        files["tp/" + fname + ".py"] = '"""mod"""\nV = 1\n'
+        # a class with a constructor: its qualified name (file name included) goes into the "Constructor:" notice
+        files["tp/" + fname + ".py"] = '"""mod"""\nV = 1\nclass K:\n    """doc"""\n    def __init__(self, a, b=1):\n        """init"""\n'
     return {"docformat": docformat, "files": files,
             "markers": [(m.id, m.num, m.kind, m.payload) for m in markers]}
 
@@ -1299,6 +1343,8 @@ def gen_directive_module(rng, mk, doc_safe) -> str:
         lambda: f".. code:: python\n   :number-lines: {D('code-number-lines', True)}\n\n   x = 1",
         lambda: f".. admonition:: Title {D('admonition-title')}\n   :class: {D('option-class')}\n\n   text",
         lambda: f".. note:: {D('admonition-arg')}\n\n.. warning::\n   :name: {D('option-name')}\n\n   w",
+        lambda: f".. image:: diagram.{rng.choice(['svg', 'swf', 'mp4', 'webm', 'ogg', 'SVG'])}\n   :alt: {D('image-alt-object')}",
+        lambda: f".. image:: pic{D('image-uri-object', True)}.svg",
         lambda: f".. image:: pic{D('image-uri', True)}.png\n   :alt: {D('image-alt')}\n   :target: http://t/{D('image-target', True)}\n   :width: {D('image-width', True)}",
         lambda: f".. figure:: fig{D('image-uri', True)}.png\n   :figclass: {D('option-class')}\n\n   caption {D('figure-caption')}",
         lambda: (lambda k: f".. |sub{k}| replace:: {D('substitution-text')}\n\nUse |sub{k}| and |{D('substitution-name')}| here.")(N()),
@@ -1382,6 +1428,10 @@ def check_page(name: str, raw: bytes, markers: Sequence[Tuple[str, int, str, str
         return "unknown"
 
     if root is None:
+        if "no element found" in err and len(raw) < 200:
+            # only the DOCTYPE was written: the run was aborted while this page was being flattened
+            res.append(("page-truncated:run-aborted", f"{name}: {len(raw)} bytes, {err[:80]}"))
+            return res
         res.append(("page-not-well-formed:" + kind_of(err), f"{name}: {err}"))
         return res
     texts: List[Tuple[str, str]] = []   # (where, decoded string)
@@ -1411,6 +1461,18 @@ def check_page(name: str, raw: bytes, markers: Sequence[Tuple[str, int, str, str
             texts.append((tag, el.text))
         if el.tail:
             texts.append(("tail", el.tail))
+    # R: the markup characters of a marker are escaped wherever it is written: outside well-behaved comments the page
+    #    source never contains a marker's '<tag' literally (a CDATA section or an abruptly closed comment '<!-->' holds
+    #    source text unescaped: an XML reader calls it text, an HTML reader builds the elements)
+    bare = re.sub(r"<!--(?!-?>)(?:(?!--!?>).)*?-->", "", text, flags=re.S)
+    for m in re.finditer(r"</?xmk(\d+)|<script>xmk(\d+)|<img src=\"x\" onzz(\d+)", bare):
+        n_ = int(next(g for g in m.groups() if g))
+        if n_ in by_num and n_ not in hit_nums:
+            hit_nums.add(n_)
+            res.append((f"marker-markup-unescaped:{by_num[n_][1]}", f"{name}: the page source contains {bare[max(0, m.start() - 30):m.end() + 30]!r}"))
+    # T: a template directive written in source text was run: the page footer exists once
+    if sum(1 for el in root.iter() if isinstance(el.tag, str) and local(el.tag) == "footer") > 1:
+        res.append(("template-directive-executed:footer-rendered", f"{name}: more than one <footer> element"))
     # A: every raw occurrence is accounted for by a text node / attribute value
     alltext = "\x00".join(t for _, t in texts)
     for mid, num, kind, payload in markers:
@@ -1423,7 +1485,7 @@ def check_page(name: str, raw: bytes, markers: Sequence[Tuple[str, int, str, str
     # V: the payload follows the id, verbatim modulo presentation
     joined = "".join(root.itertext())
     for mid, num, kind, payload in markers:
-        if kind.startswith("directive:") or kind.startswith("math-"):
+        if kind.startswith("directive:") or kind.startswith("math-") or (kind == "module-filename" and "MKEM" in payload):
             continue   # names, classes, ids, widths are normalised by docutils; W, S and A still apply
         want = norm_marker_text(payload)
         from urllib.parse import unquote
@@ -1466,8 +1528,10 @@ def corpus_projects() -> List[Dict[str, Any]]:
         num[0] += 1
         return Marker(num[0], kind, payload)
 
-    def proj(docformat: str, body: str, ms: List[Marker]) -> None:
-        projs.append({"docformat": docformat, "files": {"tp/__init__.py": Q3 + "corpus" + Q3 + "\n" + body},
+    def proj(docformat: str, body: str, ms: List[Marker], extra: Optional[Dict[str, str]] = None) -> None:
+        files = {"tp/__init__.py": Q3 + "corpus" + Q3 + "\n" + body}
+        files.update(extra or {})
+        projs.append({"docformat": docformat, "files": files,
                       "markers": [(m.id, m.num, m.kind, m.payload) for m in ms]})
 
     def fn(name: str, sig: str, doc: str = "doc", deco: str = "", ind: str = "") -> str:
@@ -1531,6 +1595,23 @@ def corpus_projects() -> List[Dict[str, Any]]:
         else:
             doc = f"Summary.\n\n    Math :math:`{t0}` end.\n\n    .. math:: {t1}\n\n    .. math::\n\n       {t2}\n    "
         proj(fmt, fn("mathy", "", doc), ms)
+    # hunter round (hunt/C10/1, 2, 4 and the constructor notice)
+    ms = [Marker(9300, "directive:image-alt-object", "<script>xmk{i}</script><img src=\"x\" onzz{i}=\"1\"/>"),
+          Marker(9301, "directive:image-uri-object", "<xmk{i}/>")]
+    proj("restructuredtext", fn("img1", "", f"\n    Summary.\n\n    .. image:: diagram.svg\n       :alt: {ms[0].text}\n    ")
+         + fn("img2", "", f"\n    Summary.\n\n    .. image:: {ms[1].text}.mp4\n    "), ms)
+    for fmt in ("epytext", "restructuredtext"):
+        ms = [Marker(9310, "math-cdata", MATH_CDATA_PAYLOADS[0]), Marker(9311, "math-comment", MATH_COMMENT_PAYLOADS[0]),
+              Marker(9312, "math-template", MATH_TEMPLATE_PAYLOADS[0])]
+        t = [BS2 + cmd + "{" + m.text + "}" for cmd, m in zip(("text", "mbox", "text"), ms)]
+        doc = (f"Summary.\n\n    Math M{{{t[0]}}} and M{{{t[1]}}} and M{{{t[2]}}} end." if fmt == "epytext" else
+               f"Summary.\n\n    Math :math:`{t[0]}` and :math:`{t[1]}` end.\n\n    .. math:: {t[2]}\n    ")
+        proj(fmt, fn("mathy2", "", doc), ms)
+    ms = [Marker(9320, "math-template-abort", MATH_TEMPLATE_ABORT_PAYLOADS[0])]
+    proj("epytext", fn("mathy3", "", "Summary.\n\n    Math M{" + BS2 + "text{" + ms[0].text + "}} end."), ms)
+    m = Marker(9330, "module-filename", "` **MKEM{i}** `b")
+    proj("epytext", "", [m], {"tp/" + m.text + ".py": Q3 + "mod" + Q3 + "\nclass K:\n    " + Q3 + "doc" + Q3
+                               + "\n    def __init__(self, a, b=1):\n        " + Q3 + "init" + Q3 + "\n"})
     for pr in projs:
         ast.parse(pr["files"]["tp/__init__.py"])   # a corpus project that does not even parse would test nothing
     return projs
@@ -1586,9 +1667,13 @@ def taint_signature(sig: str) -> str:
     if sig.startswith("source-text-became-markup:deprecated-replacement"):
         return "rst-injection:" + sig.split(":", 1)[1]
     # one root cause (math2html's unescaped text mode / literal parameters), whatever the payload turned into
-    m = re.match(r"^(marker-in-script|marker-outside-text|page-not-well-formed):(math-(?:text|param))$", sig)
+    m = re.match(r"^(marker-in-script|marker-outside-text|page-not-well-formed|marker-markup-unescaped):"
+                 r"(math-(?:text|param)|directive:image-(?:alt|uri)-object)$", sig)
     if m:
         return "source-text-became-markup:" + m.group(2)
+    m = re.match(r"^(marker-in-script|marker-outside-text):(math-(?:cdata|comment))$", sig)
+    if m:
+        return "marker-markup-unescaped:" + m.group(2)
     return sig
 
 
